@@ -260,6 +260,34 @@ Lemma fr_xs : forall b, alive s b -> xs s' (ldr s) b = xs s (ldr s) b.
 Proof. intros b A. unfold xs. rewrite Hresp, (Hpend b A). reflexivity. Qed.
 
 
+(* the leader takes a request of a former leader out of its queue: plain label -> handleBackup *)
+Lemma invB_frame_to_hb :
+  plain (pcr s (ldr s)) -> pcr s' (ldr s) = HandleBackup ->
+  InvB w s -> InvB w s'.
+Proof.
+  intros Hp Hp' [V P Ph].
+  assert (N1 : ~ insync s (ldr s)) by (unfold insync; destruct (pcr s (ldr s)); cbn in Hp; intuition discriminate).
+  assert (N1' : ~ insync s' (ldr s)) by (unfold insync; rewrite Hp'; intuition discriminate).
+  assert (N2 : ~ inrepl s (ldr s)) by (unfold inrepl; destruct (pcr s (ldr s)); cbn in Hp; intuition discriminate).
+  assert (N2' : ~ inrepl s' (ldr s)) by (unfold inrepl; rewrite Hp'; intuition discriminate).
+  destruct (fr_prefix_order_resp P) as [P1 P2].
+  constructor; [apply fr_versions; exact V | constructor; auto | constructor]; rewrite ?Hldr.
+  - intros _ [H|H]; rewrite Hp' in H; discriminate H.
+  - intros A _ b Ab Hb HK. left. right. left. exact Hp'.
+  - intros A _ b Ab Hb. apply fr_alive in A. apply fr_alive in Ab.
+    pose proof (ph_tok w s Ph A N2 b Ab Hb) as H. rewrite (fr_toks b Ab).
+    destruct (toks s (ldr s) b) as [|t rest]; [exact Logic.I|]. destruct H as [H1 H2]. split.
+    + eapply Forall_impl; [|exact H1]. intros m Hm. rewrite fr_K. exact Hm.
+    + rewrite fr_K. intros Hlt. destruct (H2 Hlt) as (X1 & _). contradiction.
+  - intros A HK b Ab Hb. apply fr_alive in A. apply fr_alive in Ab. rewrite fr_K in HK.
+    rewrite (fr_toks b Ab). destruct (ph_count w s Ph A HK b Ab Hb) as [C1 C2].
+    destruct (toks s (ldr s) b) as [|t rest]; [split; [cbn; lia | intros H; congruence]|].
+    destruct C2 as (X1 & _); [discriminate | contradiction].
+  - intros A _ b Ab Hb. apply fr_alive in A. apply fr_alive in Ab.
+    rewrite fr_acks, (fr_puts b Ab). apply (ph_noack w s Ph A N2 b Ab Hb).
+  - intros _ H. contradiction.
+Qed.
+
 Hypothesis Hreqp : filter is_p (queue (net s' (ldr s) REQ)) = filter is_p (queue (net s (ldr s) REQ)).
 
 Lemma fr_owedP : owedP s' (ldr s) <-> owedP s (ldr s).
@@ -1003,15 +1031,15 @@ Proof.
   { destruct (alive_ge_ldr cfg s _ IA Ax) as [_ H]. lia. }
   rewrite <- Epc.
   destruct Hh as [(E1 & _ & E3)|(E1 & _ & E3)]; subst here.
-  - apply (invB_send_sync w s typ id IA IB Ap Ax Hlt); auto.
-  - apply (invB_send_put w s typ id IA IB Ap Ax Hlt); auto.
+  - apply invB_send_sync; auto.
+  - apply invB_send_put; auto.
 Qed.
 
 Lemma invB_sndSyncReqLoop : forall w s p ch s', InvA s -> InvB w s -> alive s p ->
   pcr s p = SndSyncReqLoop -> step_sndSyncReqLoop cfg ch s p = Ok s' -> InvB w s'.
 Proof.
   intros w s p ch s' IA IB Ap Epc Hs. unfold step_sndSyncReqLoop in Hs.
-  eapply invB_sndLoop; eauto. left. auto.
+  eapply (invB_sndLoop w s p ch s' SYNC_REQ 3 SndSyncReqLoop RcvSyncRespLoop); eauto.
 Qed.
 
 Lemma invB_sndReplicaReqLoop : forall w s p ch s', InvA s -> InvB w s -> alive s p ->
@@ -1019,8 +1047,174 @@ Lemma invB_sndReplicaReqLoop : forall w s p ch s', InvA s -> InvB w s -> alive s
 Proof.
   intros w s p ch s' IA IB Ap Epc Hs. unfold step_sndReplicaReqLoop in Hs.
   destruct (r_req (rl s p)) as [m|]; cbn [bindT] in Hs; [|discriminate].
-  eapply invB_sndLoop; eauto. right. auto.
+  eapply (invB_sndLoop w s p ch s' PUT_REQ (m_id m) SndReplicaReqLoop RcvReplicaRespLoop); eauto.
 Qed.
 
+
+
+(* ------------------------------------------------------------------ rcvMsg *)
+Lemma invB_rcvMsg : forall w s p ch s', InvA s -> InvB w s -> alive s p ->
+  pcr s p = RcvMsg -> step_rcvMsg cfg ch s p = Ok s' -> InvB w s'.
+Proof.
+  intros w s p ch s' IA IB Ap Epc Hs. unfold step_rcvMsg in Hs.
+  destruct (Nat.eqb (leader cfg s) p && r_shouldSync (rl s p)) eqn:E.
+  { inversion Hs; subst s'. apply invB_local_step; auto.
+    - apply pend_set_rl_nohb; [rewrite Epc; discriminate | discriminate].
+    - right. rewrite Epc. cbn. auto. }
+  unfold link_recv in Hs. dif Hs; [discriminate|].
+  destruct (queue (net s p REQ)) as [|m rest] eqn:Eq; [discriminate|].
+  dif Hs; [discriminate|].
+  change (leader cfg (set_net s (upd_net (net s) p REQ (mkLink rest (enabled (net s p REQ)))))) with (leader cfg s) in Hs.
+  destruct (a_q cfg s IA p Ap) as (Sh & _ & _). rewrite Eq in Sh.
+  destruct (shape_tail cfg _ _ _ _ Sh) as [Sh' Hm].
+  (* facts common to both targets *)
+  assert (F : forall l', r_lastPutBody l' = r_lastPutBody (rl s p) -> pc_alive (r_pc l') = true ->
+     let s1 := set_rl (set_net s (upd_net (net s) p REQ (mkLink rest (enabled (net s p REQ))))) p l' in
+     (forall r, pc_alive (pcr s1 r) = pc_alive (pcr s r)) /\ ldr s1 = ldr s /\
+     (forall r, r_lastPutBody (rl s1 r) = r_lastPutBody (rl s r)) /\
+     (forall r k, fsv s1 r k = fsv s r k) /\
+     (forall r, r <> p -> pend s1 r = pend s r) /\
+     queue (net s1 (ldr s) RESP) = queue (net s (ldr s) RESP) /\
+     (p <> ldr s -> filter is_p (queue (net s1 (ldr s) REQ)) = filter is_p (queue (net s (ldr s) REQ))) /\
+     (forall r, r <> p -> rl s1 r = rl s r)).
+  { intros l' Hl Hal s1. unfold s1. repeat split; simp_st; auto.
+    - intros r. unfold pcr. simp_st. unfold updf. destruct (Nat.eqb r p) eqn:E2; [|reflexivity].
+      apply Nat.eqb_eq in E2. subst r. rewrite Hal. symmetry. apply Ap.
+    - intros r. unfold updf. destruct (Nat.eqb r p) eqn:E2; [|reflexivity]. apply Nat.eqb_eq in E2. subst r. exact Hl.
+    - intros r Hr. apply pend_ext; unfold pcr; simp_st; rewrite ?updf_other by exact Hr; try reflexivity.
+      rewrite upd_net_other by (left; exact Hr). reflexivity.
+    - rewrite upd_net_other by (right; discriminate). reflexivity.
+    - intros Hne. rewrite upd_net_other by (left; auto). reflexivity.
+    - intros r Hr. apply updf_other. exact Hr. }
+  destruct (Nat.eqb (leader cfg s) p && srct_eqb (m_src m) CLIENT_SRC) eqn:E2; inversion Hs; subst s'; clear Hs.
+  - (* handlePrimary: p is the leader, m a client request *)
+    apply andb_true_iff in E2. destruct E2 as [E3 E4]. apply Nat.eqb_eq in E3.
+    assert (Hq : p = ldr s) by (symmetry; exact E3). clear E3. subst p.
+    assert (Hc : creq cfg m).
+    { destruct Hm as [Hm | (Hm & _)]; [|exact Hm]. exfalso. destruct Hm as (Hsrc & _). rewrite Hsrc in E4. discriminate. }
+    destruct (F (r_set_pc (r_set_req (rl s (ldr s)) (Some m)) HandlePrimary) eq_refl eq_refl) as (F1 & F2 & F3 & F4 & F5 & F6 & F7 & F8).
+    apply (invB_frame_plain w s); auto.
+    + intros r Ar. destruct (Nat.eq_dec r (ldr s)) as [->|Hne]; [|apply F5; exact Hne].
+      rewrite !pend_not_hb; [|rewrite Epc; discriminate | unfold pcr; simp_st; rewrite updf_same; discriminate].
+      simp_st. rewrite upd_net_same, Eq. simp_st. cbn [filter]. rewrite (creq_is_p m Hc). reflexivity.
+    + simp_st. rewrite upd_net_same, Eq. simp_st. cbn [filter]. rewrite (creq_is_p m Hc). reflexivity.
+    + rewrite Epc. exact Logic.I.
+    + unfold pcr. simp_st. rewrite updf_same. exact Logic.I.
+    + simp_st. rewrite updf_same. reflexivity.
+  - (* handleBackup *)
+    assert (Hp : pmA p (ldr s) m).
+    { destruct Hm as [Hm | (Hm & Hpq & _)]; [exact Hm|]. exfalso.
+      apply andb_false_iff in E2. destruct E2 as [E2|E2].
+      - apply Nat.eqb_neq in E2. apply E2. symmetry. exact Hpq.
+      - destruct Hm as (Hsrc & _). rewrite Hsrc in E2. discriminate. }
+    destruct (F (r_set_pc (r_set_req (rl s p) (Some m)) HandleBackup) eq_refl eq_refl) as (F1 & F2 & F3 & F4 & F5 & F6 & F7 & F8).
+    assert (Hpend : forall r, alive s r -> pend (set_rl (set_net s (upd_net (net s) p REQ (mkLink rest (enabled (net s p REQ))))) p
+                                             (r_set_pc (r_set_req (rl s p) (Some m)) HandleBackup)) r = pend s r).
+    { intros r Ar. destruct (Nat.eq_dec r p) as [->|Hne]; [|apply F5; exact Hne].
+      rewrite (pend_hb _ p m); [|unfold pcr; simp_st; rewrite updf_same; reflexivity | simp_st; rewrite updf_same; reflexivity].
+      rewrite pend_not_hb by (rewrite Epc; discriminate).
+      simp_st. rewrite upd_net_same, Eq. simp_st. cbn [filter]. rewrite (pmA_is_p _ _ _ Hp). reflexivity. }
+    destruct (Nat.eq_dec p (ldr s)) as [Hq|Hne].
+    + subst p. apply (invB_frame_to_hb w s); auto.
+      * rewrite Epc. exact Logic.I.
+      * unfold pcr. simp_st. rewrite updf_same. reflexivity.
+    + apply (invB_frame_same w s); auto.
+Qed.
+
+(* ------------------------------------------------------------------ sndResp *)
+Lemma invB_sndResp : forall w s p ch s', InvA s -> InvB w s -> alive s p ->
+  pcr s p = SndResp -> step_sndResp cfg ch s p = Ok s' -> InvB w s'.
+Proof.
+  intros w s p ch s' IA IB Ap Epc Hs.
+  assert (Hq : p = ldr s).
+  { apply (nonbackup_is_ldr cfg s p IA Ap). rewrite Epc. cbn. tauto. }
+  subst p.
+  destruct (a_loc cfg s IA _ Ap) as (_ & _ & L3 & _).
+  destruct L3 as (m0 & Hreq & Hm & Hss & Hqc); [unfold pcr in Epc; rewrite Epc; exact Logic.I|].
+  unfold step_sndResp in Hs. rewrite Hreq in Hs. cbn [bindT] in Hs.
+  destruct (r_respBody (rl s (ldr s))) as [rb|]; cbn [bindT] in Hs; [|discriminate].
+  destruct (r_respTyp (rl s (ldr s))) as [rt|]; cbn [bindT] in Hs; [|discriminate].
+  unfold link_send in Hs. simp_st. destruct (enabled (net s (m_from m0) RESP)) eqn:Een; [|discriminate].
+  inversion Hs; subst s'; clear Hs.
+  destruct Hm as (Hsrc & Hfrom & Hok).
+  assert (Hnq : forall r, isrep r -> r <> m_from m0) by (intros r [? ?] ->; lia).
+  assert (Hqr : isrep (ldr s)) by apply Ap.
+  apply (invB_frame_plain w s); auto; simp_st.
+  - intros r. unfold pcr. simp_st. unfold updf. destruct (Nat.eqb r (ldr s)) eqn:E; [|reflexivity].
+    apply Nat.eqb_eq in E. subst r. unfold pcr in Epc. simp_st. rewrite Epc. reflexivity.
+  - intros r. unfold updf. destruct (Nat.eqb r (ldr s)) eqn:E; [|reflexivity]. apply Nat.eqb_eq in E. subst r. reflexivity.
+  - intros r Ar. assert (Hr : r <> m_from m0) by (apply Hnq; apply Ar).
+    destruct (Nat.eq_dec r (ldr s)) as [->|Hne].
+    + rewrite !pend_not_hb; [|rewrite Epc; discriminate | unfold pcr; simp_st; rewrite updf_same; discriminate].
+      simp_st. rewrite upd_net_other by (right; discriminate). reflexivity.
+    + apply pend_ext; unfold pcr; simp_st; rewrite ?updf_other by exact Hne; try reflexivity.
+      rewrite upd_net_other by (right; discriminate). reflexivity.
+  - rewrite upd_net_other by (left; apply Hnq; exact Hqr). reflexivity.
+  - rewrite upd_net_other by (right; discriminate). reflexivity.
+  - rewrite Epc. exact Logic.I.
+  - unfold pcr. simp_st. rewrite updf_same. exact Logic.I.
+  - rewrite updf_same. reflexivity.
+Qed.
+
+
+(* ------------------------------------------------------------------ client steps *)
+Lemma invB_client_step : forall w s p ch s', InvA s -> InvB w s -> NR cfg < p ->
+  step_client cfg ch s p = Ok s' -> InvB w s'.
+Proof.
+  intros w s p ch s' IA IB Hp Hs.
+  assert (Hnr : ~ isrep p) by (unfold ProofsCrashA.isrep; lia).
+  assert (F : forall s1,
+     prim s1 = prim s -> rl s1 = rl s -> fsv s1 = fsv s ->
+     (forall r, isrep r -> queue (net s1 r RESP) = queue (net s r RESP)) ->
+     (forall r, isrep r -> filter is_p (queue (net s1 r REQ)) = filter is_p (queue (net s r REQ))) ->
+     InvB w s1).
+  { intros s1 Hpr Hrl Hfs Hresp Hreq.
+    assert (Hqr : forall r, alive s r -> isrep r) by (intros r [H _]; exact H).
+    destruct (Nat.eq_dec (ldr s) 0) as [E0|N0].
+    - (* nobody alive *)
+      assert (Hna : forall r, ~ alive s r).
+      { intros r A. destruct (alive_ge_ldr cfg s r IA A) as [H _]. contradiction. }
+      assert (Hna1 : forall r, ~ alive s1 r).
+      { intros r [A1 A2]. apply (Hna r). split; [exact A1|]. unfold pcr in *. rewrite Hrl in A2. exact A2. }
+      destruct IB as [V P Ph].
+      constructor; [constructor; try apply V | constructor | constructor]; intros; exfalso; eapply Hna1; eauto.
+    - assert (Hq : isrep (ldr s)) by (apply (ldr_nonzero cfg s IA N0)).
+      apply (invB_frame_same w s); auto; try (intros; unfold pcr; rewrite ?Hrl, ?Hfs; reflexivity).
+      + apply ldr_prim_ext. intros r. rewrite Hpr. reflexivity.
+      + intros r Ar. unfold pend, pcr. rewrite Hrl, (Hreq r (Hqr r Ar)). reflexivity. }
+  unfold step_client in Hs. destruct (c_pc (cl s p)) eqn:Epc.
+  - unfold step_clientLoop in Hs. destruct (cin s) as [|m rest]; [discriminate|].
+    inversion Hs; subst s'. apply F; simp_st; auto.
+  - unfold step_sndReq in Hs.
+    destruct (negb (Nat.eqb (leader cfg s) 0)) eqn:E0.
+    2:{ inversion Hs; subst s'. apply F; simp_st; auto. }
+    destruct (ch_alt ch); cbn [negb] in Hs.
+    { destruct (fdv s (leader cfg s)); [|discriminate]. inversion Hs; subst s'. apply F; simp_st; auto. }
+    destruct (c_msg (cl s p)) as [m|] eqn:Em; cbn [bindT] in Hs; [|discriminate].
+    unfold link_send in Hs. destruct (enabled (net s (leader cfg s) REQ)) eqn:Een; [|discriminate].
+    inversion Hs; subst s'; clear Hs.
+    apply F; simp_st; auto.
+    + intros r Hr. rewrite upd_net_other by (right; discriminate). reflexivity.
+    + intros r Hr. destruct (Nat.eq_dec r (leader cfg s)) as [->|Hne].
+      * rewrite upd_net_same. simp_st. rewrite filter_app_single. unfold is_p at 2. simp_st. cbn. apply app_nil_r.
+      * rewrite upd_net_other by (left; exact Hne). reflexivity.
+  - unfold step_rcvResp in Hs. destruct (ch_alt ch); cbn [negb] in Hs.
+    { dif Hs; [|discriminate]. inversion Hs; subst s'. apply F; simp_st; auto. }
+    unfold link_recv in Hs. dif Hs; [discriminate|].
+    destruct (queue (net s p RESP)) as [|r q] eqn:Eq; [discriminate|].
+    assert (G : forall l o h, InvB w (mkSt (upd_net (net s) p RESP (mkLink q (enabled (net s p RESP)))) (fdv s) (fsv s) (prim s) (cin s) o (rl s)
+                                         (updf (cl s) p (c_set_pc (cl s p) l)) h)).
+    { intros l o h. apply F; simp_st; auto.
+      - intros r0 Hr0. rewrite upd_net_other; [reflexivity|]. left. intros ->. contradiction.
+      - intros r0 Hr0. rewrite upd_net_other; [reflexivity|]. right. discriminate. }
+    dif Hs.
+    + inversion Hs; subst s'. apply G.
+    + destruct (c_msg (cl s p)) as [m|]; cbn [bindT] in Hs; [|discriminate].
+      destruct (cm_typ m); try discriminate;
+        (dif Hs; [discriminate|]);
+        destruct (body_content (m_body r)); cbn [bindT] in Hs; try discriminate;
+        inversion Hs; subst s'; apply G.
+  - discriminate.
+Qed.
 
 End CRB.
